@@ -64,7 +64,7 @@ def r1_fixed_cost(repo, rep, f, ctx):
     rep.check_term(cost_txt in ('np.sum(self.tbr_cost.causal_effect(periods))', 'self.tbr_cost.causal_effect(periods).sum()', 'self.tbr_cost.causal_effect(periods=periods).sum()',
                                 'np.sum(self.tbr_cost.causal_effect(periods=periods))'), cost_txt, VOC, 'R1/fixed-cost-algebra',
               'cost = total causal effect of the cost model over the analysed periods', f.qualname, 'cost = %s' % cost_txt,
-              'the incremental cost is `%s`, not the summed causal effect of the cost model' % cost_txt, f.loc(c))
+              'the incremental cost is `%s`, not the summed causal effect of the cost model' % cost_txt, f.loc(c), want='np.sum(self.tbr_cost.causal_effect(periods))')
   else:
     rep.violation('R1/fixed-cost-algebra', f.qualname, norm(c)[:100], 'the response summary is not rescaled by 1/cost', f.loc(c))
     cname = None
@@ -164,7 +164,7 @@ def r1b_variable_cost(repo, rep, f, ctx):
       n_ok += 1
       rep.check_term(t in forms, ex_, keep, 'R1/variable-cost-table', 'variable-cost %s = %s' % (col, t[:60]), f.qualname, '%s = %s' % (col, t[:140]),
                 'in the variable-cost report %s is `%s`; expected %s (ratio of the paired response and cost simulations / quantities of the two posteriors)'
-                % (col, t[:120], ' or '.join(x[:80] for x in forms)), f.loc(n.ast))
+                % (col, t[:120], ' or '.join(x[:80] for x in forms)), f.loc(n.ast), want=list(forms))
   if 'precision' in cols:
     for n in cols['precision']:
       t = norm(n.ast.value)
@@ -172,6 +172,35 @@ def r1b_variable_cost(repo, rep, f, ctx):
                 rd.expand(n, n.ast.value, depth=12, keep=keep)[0], set(keep) | {rname},
                 'R1/variable-cost-table', 'variable-cost precision = estimate - lower', f.qualname, 'precision = %s' % t[:80], 'precision is `%s`, not estimate - lower' % t[:80], f.loc(n.ast))
   rep.floor('variable-cost report columns checked', n_ok, 9)
+
+
+def _global_rng_use(rep, fn, site, text):
+  """A use of numpy's / random's global generator.  With a `random_state` in scope the report is still a function of the
+  data and random_state when the use is reached only for random_state None (no seed was asked for, as in the unchanged
+  code); it is a violation when a path reaches it for a seed that is not None (witness: random_state = 0)."""
+  fctx = FuncCtx.of(fn)
+  node = fctx.node_at(site)
+  in_scope = 'random_state' in fn.params or any(isinstance(x_, ast.Name) and x_.id == 'random_state' for x_ in ast.walk(fn.node))
+  if node is None or not in_scope:
+    rep.violation('R2/determinism', fn.qualname, text[:100], 'the global random number generator is used (%s): the report depends on hidden RNG state' % text[:60], fn.loc(site))
+    return
+  g = fctx.g
+  reach0 = g.reachable(g.entry, tbrrules.edge_filter_for(g, {'random_state': 0}))
+  reach_all = g.reachable(g.entry, cfgmod.no_exc)
+  if node in reach0:
+    # is that because the tests were decided, or because nothing was decided?  Undecided tests between entry and the use
+    # that mention random_state leave the question open
+    ef_none = tbrrules.edge_filter_for(g, {'random_state': None})
+    reach_none = g.reachable(g.entry, ef_none)
+    tests_rs = [n_ for n_ in g.nodes if n_.kind == 'test' and n_ in reach_all and re.search(r'\brandom_state\b', norm(fctx.rd.expand(n_, n_.expr, keep=('random_state',))[0]))]
+    decided = all(tbrrules.decide_scalar(fctx.rd.expand(n_, n_.expr, keep=('random_state',))[0], {'random_state': 0}) is not None for n_ in tests_rs)
+    if decided:
+      rep.violation('R2/determinism', fn.qualname, text[:100],
+                    'the global random number generator (%s) is reached for random_state=0 (a seed, not None): the report then depends on hidden RNG state although a random_state was given' % text[:60], fn.loc(site))
+    else:
+      rep.undecided('R2/determinism', 'global generator %s' % text[:40], 'whether the use is reached only when random_state is None depends on a test that is not decided', fn.loc(site))
+  else:
+    rep.ok('R2/determinism', 'the global generator %s is reached only when no random_state was given' % text[:40], loc=fn.loc(site))
 
 
 def r2_determinism(repo, rep, f, ctx):
@@ -192,11 +221,27 @@ def r2_determinism(repo, rep, f, ctx):
           if not ok and isinstance(cx_, ast.Call) and (any(k.arg is None for k in cx_.keywords) or any(isinstance(a_, ast.Starred) for a_ in cx_.args)):
             rep.undecided('R2/determinism', 'draw %s' % norm(c)[:40], 'the arguments of the draw are passed through an unresolved */** table', fn.loc(c))
             continue
-          rep.check(ok, 'R2/determinism', 'draw %s is seeded from the random_state parameter' % norm(c)[:40], fn.qualname, norm(c)[:100],
-                    'the simulation draw `%s` is not seeded from the random_state argument: the report is not a function of the data and random_state' % norm(c)[:80], fn.loc(c))
+          if not ok and rs is not None and any((isinstance(x_, ast.Attribute) and x_.attr == 'random_state') or (isinstance(x_, ast.Name) and x_.id == 'random_state')
+                                               for x_ in ast.walk(rs)):
+            # seeded from something called random_state that is not the parameter of this function itself (a field of a
+            # parameter object, a helper's own parameter): where it comes from is not followed
+            rep.undecided('R2/determinism', 'draw %s' % norm(c)[:40], 'the draw is seeded with `%s`: its origin in the random_state argument of summary() is not followed' % norm(rs)[:60], fn.loc(c))
+            continue
+          verdict_ = True if ok else (False if (rs is None or not au.aliens(rs, ())) else None)
+          rep.check3(verdict_, 'R2/determinism', 'draw %s is seeded from the random_state parameter' % norm(c)[:40], fn.qualname, norm(c)[:100],
+                     'the simulation draw `%s` is not seeded from the random_state argument: the report is not a function of the data and random_state' % norm(c)[:80], fn.loc(c),
+                     why_open='the seed `%s` reads names that are not resolved' % (norm(rs)[:60] if rs is not None else ''))
         elif re.match(r'(np|numpy)\.random\.|random\.(random|sample|choice|gauss|uniform|shuffle|seed)', t):
           n_draw += 1
-          rep.violation('R2/determinism', fn.qualname, norm(c)[:100], 'the global random number generator is used (%s): the report depends on hidden RNG state' % norm(c)[:60], fn.loc(c))
+          if re.fullmatch(r'(np|numpy)\.random\.(RandomState|default_rng|Generator|PCG64|MT19937|SeedSequence)', t) and (c.args or c.keywords):
+            continue          # a generator of its own, constructed from a seed: not the global stream
+          _global_rng_use(rep, fn, c, norm(c))
+      # the generator behind np.random.* named as an object (np.random.mtrand._rand, np.random.random.__self__)
+      for a_ in ast.walk(fn.node):
+        if isinstance(a_, ast.Attribute) and re.fullmatch(r'(np|numpy)\.random\.(mtrand\._rand|mtrand|_rand)', norm(a_)) \
+            and not isinstance(getattr(a_, '_parent', None), ast.Attribute):
+          n_draw += 1
+          _global_rng_use(rep, fn, a_, norm(a_))
   rep.floor('random draws reachable from the iROAS summary', n_draw, 2)
   for q in (CLS, 'tbr.TBR'):
     sub = type(rep)(rep.prop, rep.tier, rep.repo)
@@ -268,7 +313,7 @@ def r3_scenario(repo, rep):
   t = main[0]
   A = 'self.tbr_cost.analysis_data'
   per = "%s[self.df_names.period]" % A
-  pre = "%s.loc[%s == self.periods.pre][self.df_names.cost]" % (A, per)
+  pre = "%s.loc[%s == self.periods.pre, self.df_names.cost]" % (A, per)      # (the chained spelling .loc[mask][col] is normalised to this at load time)
   tst = "%s.loc[%s == self.periods.test].loc[self.groups.control][self.df_names.cost]" % (A, per)
   want = 'utils.float_order(sum(%s) + sum(%s)) < -10' % (pre, tst)
   rep.check_term(t == want, t, (), 'R3/scenario', 'fixed-cost iff order of magnitude of (pre-period costs + control test-period costs) < -10', f.qualname, t[:200],
